@@ -51,6 +51,21 @@ claim('C12',
       'raising guards + path-kind inference',
       'DESIGN.md section 4 C12')
 
+claim('C13',
+      'Decides the selection logic of `build` for all 4^6 argument '
+      'combinations at once by analysing the loop with the section name kept '
+      'symbolic: which value is stored into result.<section> under which '
+      'dominating tests, that four sibling section tables agree, and that '
+      'every failing exit precedes the single write.',
+      'Decided: section tables agreement, provenance and guarding of every '
+      'store into the result cart, presence and dominance of the three '
+      'validations, single write after the loop, option wiring for the '
+      'section options. Not decided: byte equality of sections in OUT (needs '
+      'the codecs, C03/C04); unreadable source carts.',
+      'static analysis: symbolic attribute dataflow over the loop body + CFG '
+      'edge dominance + evaluated argparse/section tables',
+      'DESIGN.md section 4 C13')
+
 
 def main():
     props = []
